@@ -214,8 +214,7 @@ theorem onReply_frame {c c' : Core} {r : Req} {o : Out} (h : c' ∈ onReply c r 
   | findCoord =>
     cases o <;> simp only [onReply, List.mem_singleton] at h <;> try (subst h; exact ⟨rfl, rfl, by dfin⟩)
     split at h
-    · simp only [List.mem_cons, List.mem_singleton, List.not_mem_nil, or_false] at h
-      rcases h with h | h <;> subst h <;> exact ⟨rfl, rfl, by dfin⟩
+    · simp only [List.mem_singleton] at h; subst h; exact ⟨rfl, rfl, by dfin⟩
     · simp only [List.mem_singleton] at h; subst h; exact ⟨rfl, rfl, by dfin⟩
   | join =>
     simp only [onReply] at h
@@ -280,8 +279,7 @@ theorem onReply_keeps {c c' : Core} {r : Req} {o : Out} (h : c' ∈ onReply c r 
   | findCoord =>
     cases o <;> simp only [onReply, List.mem_singleton] at h <;> try (subst h; exact ⟨rfl, rfl⟩)
     split at h
-    · simp only [List.mem_cons, List.not_mem_nil, or_false] at h
-      rcases h with h | h <;> subst h <;> exact ⟨rfl, rfl⟩
+    · simp only [List.mem_singleton] at h; subst h; exact ⟨rfl, rfl⟩
     · simp only [List.mem_singleton] at h; subst h; exact ⟨rfl, rfl⟩
   | join =>
     have hj : (joinReply c o).joinOk = c.joinOk ∧ (joinReply c o).excused = c.excused := by
@@ -375,7 +373,7 @@ theorem stepN_recv {cfg : List String} {c c' : Core} {id : Nat} {o : Out}
 
 theorem stepN_userCommit {cfg : List String} {c c' : Core}
     (h : c' ∈ stepN cfg c .userCommit) (hst : c.stopped = false) :
-    c' = { c with commitAllow := c.commitAllow + 1 } := by
+    c' = { c with commitAllow := c.commitAllow + 1, userCommits := true } := by
   unfold stepN at h
   rw [if_neg (by simp [hst])] at h
   simpa using h
@@ -657,7 +655,12 @@ theorem settled_step {cfg : List String} {c c' : Core} {e : Ev} (hs : Settled c)
     rcases hr with hr | hr | hr <;> simp only at hr <;> subst hr
     all_goals
       exact { assigned := hs.assigned, noRejoin := hs.noRejoin, noMd := hs.noMd,
-              coordKnown := hs.coordKnown, noJoin := hs.noJoin, noLeave := hs.noLeave,
+              coordKnown := by
+                have hk := hs.coordKnown
+                cases hc : c.coord with
+                | none => rw [hc] at hk; cases hk
+                | some n => simp [onSend, newCoord, hc],
+              noJoin := hs.noJoin, noLeave := hs.noLeave,
               open_ := hs.open_, running := hs.running,
               inflightRoutine := by
                 intro p hp
@@ -759,8 +762,7 @@ theorem cframe_onReply {c c' : Core} {r : Req} {o : Out} (h : c' ∈ onReply c r
   | findCoord =>
     cases o <;> simp only [onReply, List.mem_singleton] at h <;> try (subst h; rfl)
     split at h
-    · simp only [List.mem_cons, List.not_mem_nil, or_false] at h
-      rcases h with h | h <;> subst h <;> rfl
+    · simp only [List.mem_singleton] at h; subst h; rfl
     · simp only [List.mem_singleton] at h; subst h; rfl
   | join =>
     simp only [onReply] at h
